@@ -4327,6 +4327,8 @@ class Macro:
             try:
                 return parse_ctx._lookup_named_entity(MacroArgumentKind.EXPR, value.children[0])
             except UndefinedReferenceError:
+                # not an argument of the caller: the name means the same thing wherever the argument ends up being used
+                parse_ctx.global_names_in_arguments.add(id(value.children[0]))
                 return value
         if value.data == "concat_expr" or value.data in all_sum_expr_nodes:
             # (a new tree: the argument belongs to the calling macro's body, which all its expansions share)
@@ -4386,6 +4388,7 @@ class ParseCtx:
         self.innermost_break_handler = None  # just a lambda: Action
         
         self.bound_argument_stack: List[Dict[Tuple[MacroArgumentKind, str], lark.Tree]] = []
+        self.global_names_in_arguments = set()  # ids of the name tokens inside match/expr arguments that refer to something global
         self.active_macro: Optional[MacroInstance] = None
 
         self.yield_codes = []
@@ -4474,8 +4477,8 @@ class ParseCtx:
                     continue
             raise UndefinedReferenceError(None, from_tree)
 
-        # check if in bound argument stack
-        for entry in reversed(self.bound_argument_stack):
+        # check if in bound argument stack (names inside an argument that were not the calling macro's own arguments are global)
+        for entry in reversed(self.bound_argument_stack) if id(from_tree) not in self.global_names_in_arguments else ():
             if (context, name) in entry:
                 bound = entry[(context, name)]
                 if context == MacroArgumentKind.EXPR and getattr(bound, "data", None) == "identifier_const" and bound.children[0].value == name:
